@@ -76,7 +76,7 @@ ASSUMPTIONS = [
 
 COMPONENTS = {
     "diff": {
-        "real": ["cachelito-macros / cachelito-async-macros expansions of the 289-function corpus", "cachelito-core caches constructed directly (same build)", "parking_lot", "dashmap", "once_cell", "fastrand (re-seeded identically for both sides)"],
+        "real": ["cachelito-macros / cachelito-async-macros expansions of the ~290-function corpus", "cachelito-core caches constructed directly (same build)", "parking_lot", "dashmap", "once_cell", "fastrand (re-seeded identically for both sides)"],
         "stand_in": ["clock", "bodies / predicates (scripted)", "the wrapper logic restated in sim/real/harness/src/diff.rs for the directly configured side"],
     },
     "sched": {
